@@ -444,9 +444,20 @@ def w_history_independence(ctx, rng, i):
     canon = _canon(ctx, det, inp)
     fresh = _fresh_canon(ctx)
     if fresh is not None and i < 4:
+        if "seeded" not in _canon_cache:
+            with core.quiet():
+                st_keep = np.random.get_state()
+                sd = {}
+                for n_, f_, d_ in cat:
+                    if not d_:
+                        np.random.seed(4242)
+                        sd["seeded:" + n_] = result_digest(f_())
+                np.random.set_state(st_keep)
+            _canon_cache["seeded"] = sd
+        canon = dict(canon, **_canon_cache["seeded"])
         diff = sorted(n for n in canon if n in fresh and fresh[n] != repr(canon[n]))
         ctx.check("hist.fresh_process", not diff and len(fresh) >= len(canon) - 1,
-                  f"blocks whose result in a fresh interpreter (pool run in reverse order) differs from this process: {diff[:8]}")
+                  f"blocks whose result in a fresh interpreter (pool run in reverse order, another PYTHONHASHSEED; stochastic blocks right after np.random.seed) differs from this process: {diff[:8]}")
     order = rng.permutation(len(det))
     sto = [(n, f) for n, f, d in cat if not d]
     np.random.seed(int(rng.integers(2 ** 31)))
@@ -497,7 +508,34 @@ def _fresh_canon(ctx):
             "core.import_repo(); ctx = Ctx('C14', 'quick', %d); m.setup(ctx)\n"
             "print('CANON' + json.dumps(m.pool_digests(ctx, reverse=True)))\n" % ctx.seed)
     try:
-        r = subprocess.run([sys.executable, "-c", code], capture_output=True, text=True, timeout=600, cwd=core.ROOT, env=dict(os.environ))
+        # other hash seeds: iteration order of sets / dicts keyed by strings differs between interpreters (three of them, started
+        # together: a two-element set comes out in the other order with probability 1/2 per interpreter)
+        procs = [subprocess.Popen([sys.executable, "-c", code], stdout=subprocess.PIPE, stderr=subprocess.PIPE, text=True, cwd=core.ROOT,
+                                  env=dict(os.environ, PYTHONHASHSEED=str(1 + 3 * (ctx.seed % 1000) + j))) for j in range(3)]
+        merged, lines = {}, 0
+        for p_ in procs:
+            so, se = p_.communicate(timeout=900)
+            line = [l for l in so.splitlines() if l.startswith("CANON")]
+            if not line:
+                ctx.note("fresh-process pool failed: " + (se or so)[-300:])
+                continue
+            lines += 1
+            for k_, v_ in json.loads(line[-1][5:]).items():
+                merged.setdefault(k_, v_)
+                if merged[k_] != v_:
+                    merged[k_] = "differs between fresh interpreters: " + v_[:40]
+        _fresh_cache[ctx.seed] = merged if lines else None
+    except Exception as e:
+        ctx.note(f"fresh-process pool failed: {e!r}")
+        _fresh_cache[ctx.seed] = None
+    return _fresh_cache[ctx.seed]
+    code = ("import sys, json, warnings; warnings.simplefilter('ignore')\n"
+            "from rv import core; from rv.core import Ctx; import rv.props.c14 as m\n"
+            "core.import_repo(); ctx = Ctx('C14', 'quick', %d); m.setup(ctx)\n"
+            "print('CANON' + json.dumps(m.pool_digests(ctx, reverse=True)))\n" % ctx.seed)
+    try:
+        # another hash seed: iteration order of sets / dicts keyed by strings differs between the two interpreters
+        r = subprocess.run([sys.executable, "-c", code], capture_output=True, text=True, timeout=600, cwd=core.ROOT, env=dict(os.environ, PYTHONHASHSEED=str(1 + ctx.seed % 1000)))
         line = [l for l in r.stdout.splitlines() if l.startswith("CANON")]
         _fresh_cache[ctx.seed] = json.loads(line[-1][5:]) if line else None
         if not line:
@@ -532,6 +570,12 @@ def pool_digests(ctx, reverse=False):
         out = {}
         for n, f in (det[::-1] if reverse else det):
             out[n] = repr(result_digest(f()))
+        # stochastic blocks, each right after np.random.seed(s): "repeating a call after np.random.seed(s) reproduces the output
+        # bit-for-bit" — also in another interpreter (the fresh one runs under a different PYTHONHASHSEED)
+        sto = [(n, f) for n, f, d in cat if not d]
+        for n, f in (sto[::-1] if reverse else sto):
+            np.random.seed(4242)
+            out["seeded:" + n] = repr(result_digest(f()))
     return out
 
 
